@@ -445,6 +445,9 @@ func TLSConnState(c *tls.Conn) tls.ConnectionState {
 
 var TCPListeners = map[*net.TCPListener]*Listener{}
 
+// EphemeralPort is the port a listener bound to port 0 reports as its own.
+const EphemeralPort = 49152
+
 func tcpKey(a *net.TCPAddr) string {
 	p := a.Port
 	s := ""
@@ -465,7 +468,11 @@ func TCPListen(network string, laddr *net.TCPAddr) (*net.TCPListener, error) {
 	}
 	h := &net.TCPListener{}
 	TCPListeners[h] = l.(*Listener)
-	l.(*Listener).tcp = &net.TCPAddr{Port: laddr.Port}
+	port := laddr.Port
+	if port == 0 {
+		port = EphemeralPort // the kernel picks a free port for ":0"
+	}
+	l.(*Listener).tcp = &net.TCPAddr{IP: laddr.IP, Port: port}
 	return h, nil
 }
 func TCPAccept(h *net.TCPListener) (net.Conn, error) { return TCPListeners[h].Accept() }
